@@ -186,6 +186,36 @@ def float_int_laws(i: int, j: int) -> bool:
     return True
 
 
+FLOATS = ['1.0E-3', '1.0e-3', '1E3', '1e3', '2.5D0', '2.5d0', '1.0', '1.00', '0.5', '.5', '1.', '1.0_8']
+FKINDS = [None, 'jprb', 'JPRB', 'jprd']
+
+
+def float_spelling_laws(a: int, b: int, ka: int, kb: int) -> bool:
+    """
+    pre: 0 <= a < 12 and 0 <= b < 12 and 0 <= ka < 4 and 0 <= kb < 4
+    post: _
+    """
+    # whatever spellings the implementation decides to identify (exponent letter case, kind case): the decision must be
+    # symmetric, equal literals must hash equal and be found as dict / set keys
+    va, vb = FLOATS[pick(a, 0, 11)], FLOATS[pick(b, 0, 11)]
+    na, nb = FKINDS[pick(ka, 0, 3)], FKINDS[pick(kb, 0, 3)]
+    x = sym.FloatLiteral(va, kind=sym.Variable(name=na) if na else None)
+    y = sym.FloatLiteral(vb, kind=sym.Variable(name=nb) if nb else None)
+    e = (x == y)
+    if bool(e) != bool(y == x):
+        return False
+    if e and hash(x) != hash(y):
+        return False
+    if e and (y not in {x: 1} or x not in {y}):
+        return False
+    if bool(x != y) == bool(e):
+        return False
+    # identical spelling and kinds differing at most in letter case are the same literal
+    if va == vb and (na or '').lower() == (nb or '').lower() and not e:
+        return False
+    return True
+
+
 def range_shortcut_is_only_exception(a: int) -> bool:
     """
     pre: 0 <= a < 45
@@ -203,7 +233,7 @@ def range_shortcut_is_only_exception(a: int) -> bool:
     return not (r == x) and not (x == r)
 
 
-FUNCS = ['pair_laws', 'dict_key_laws', 'int_literal_laws', 'float_int_laws', 'range_shortcut_is_only_exception']
+FUNCS = ['pair_laws', 'dict_key_laws', 'int_literal_laws', 'float_int_laws', 'range_shortcut_is_only_exception', 'float_spelling_laws']
 GROUP = 5      # pool indices per generated condition (one CrossHair process each)
 
 
@@ -213,7 +243,7 @@ def generate(tier):
     import re
     from pathlib import Path
     text = Path(__file__).read_text().split(chr(10) + 'FUNCS = [')[0]
-    funcs = ['int_literal_laws', 'float_int_laws', 'range_shortcut_is_only_exception']
+    funcs = ['int_literal_laws', 'float_int_laws', 'range_shortcut_is_only_exception', 'float_spelling_laws']
     for base in ('pair_laws', 'dict_key_laws'):
         m = re.search(r'(?ms)^def %s\(.*?(?=^def )' % base, text)
         src = m.group(0)
